@@ -323,9 +323,18 @@ def rule_template(ctx):
         calls = [e for e in a.events if e[0] == "asm_main" and _is_prefix_state(e[2], st)]
         wrong = st.P[1] < 1 or st.P[0] > 1
         right = st.P == (1, 1)
-        if not wrong and not right:
-            raise AnalysisError("R-TEMPLATE: a path of main does not decide whether argc is the expected number (%r)" % (st.P,))
         r = st.ret
+        if not wrong and not right:
+            # one path for the expected count and for other counts alike: whatever it does is wrong for one of them
+            if calls:
+                n_wrong += 1
+                guard_bad.append("for every argc in [%d, %d] - not only the expected 1 - asm_main is called" % st.P)
+                continue
+            if isinstance(r, cabs.Num) and (r.lo > 0 or r.hi < 0):
+                n_ok += 1
+                status_bad.append("argc in [%d, %d], which includes the expected count, is refused" % st.P)
+                continue
+            raise AnalysisError("R-TEMPLATE: a path of main does not decide whether argc is the expected number (%r)" % (st.P,))
         if wrong:
             n_wrong += 1
             if calls:
@@ -338,7 +347,7 @@ def rule_template(ctx):
                 status_bad.append("argc == 1: asm_main is called %d times" % len(calls))
             elif not (isinstance(r, cabs.Num) and r.tag and r.tag[:2] == ("call", "asm_main")):
                 status_bad.append("argc == 1: main returns %r, not the unchanged result of asm_main" % (r,))
-    if not n_ok or not n_wrong:
+    if (not n_ok or not n_wrong) and not guard_bad and not status_bad:
         raise AnalysisError("R-TEMPLATE: main of the template has %d accepting and %d rejecting paths" % (n_ok, n_wrong))
     ikey = "template:argc-guard-before-call"
     if not guard_bad:
